@@ -3,10 +3,10 @@ NEXT Next
 VIEW view
 CONSTANTS
   Variant = ""
-  PNorm <- TokErr
+  PNorm <- TokErrQ
   PLit <- NoChars
-  PMacro <- MacErr
-  PLen = 4
+  PMacro <- MacErrQ
+  PLen = 3
   SAlpha <- StrErr
   SLen = 1
   CfgSel = "cilp"
